@@ -518,6 +518,18 @@ func newChain(depth int, seed int64) *Chain {
 	return head
 }
 
+// Marker: a non-empty interface; a destination field of this type that already
+// holds a *UJC is decoded through the interface decoder's unmarshaler path.
+type Marker interface{ Mark() }
+
+func (u *UJC) Mark() {}
+
+type WithNE struct {
+	A int    `json:"a"`
+	N Marker `json:"n"`
+	Z string `json:"z"`
+}
+
 type WithCB struct {
 	A  int             `json:"a"`
 	M  MJ              `json:"m"`
@@ -699,6 +711,7 @@ func init() {
 	reg("WithCB", WithCB{}, "mcb", "nostd")
 	reg("Chain", Chain{}, "mcb", "nostd")
 	reg("WithUCB", WithUCB{}, "ucb", "nostd")
+	reg("WithNE", WithNE{}, "ucb", "nostd")
 	reg("WithQ", WithQ{}, "mcb", "nostd")
 	reg("SliceMJ", []MJ(nil), "mcb")
 	reg("SlicePtrMJP", []*MJP(nil), "mcb")
